@@ -353,7 +353,12 @@ class Call(Selector):
                 else:
                     name = x.name.split(".")[0]
                     data = info.get(name, None)
-                    if not data:
+                    if x.name.endswith(".") or ".." in x.name:
+                        problems.append(
+                            f"`{x.name}` is not the name of a variable or of an attribute"
+                        )
+
+                    elif not data:
                         problems.append(
                             f"Cannot find a variable named `{x.name}` in `{func}`"
                         )
